@@ -81,7 +81,9 @@ CHECKS = {
             "source returns the direct rows because execute is correct (C01, generalised to trees containing processed "
             "Transfers: exec_correctM), a hook on a SQL source returns them because conform preserves rows (C17) and the "
             "emitted SELECT evaluates to the reference rows (C02, compile_sound), re-applied operations preserve rows (C05), a "
-            "statically empty chain operand is dropped only when it really is empty (C06); payloads go to NEW Transfer nodes "
+            "statically empty chain operand is dropped only when it really is empty (C06); ONLY Materializations of the input tree (never its Transfers or leaves) and nodes the "
+            "Processor creates gain payloads, and no payload already stored is replaced "
+            "(only_input_materializations_gain_payloads); payloads go to NEW Transfer nodes "
             "with fresh allocation ids or to Materializations of the input and hold the rows registered for the marker, no "
             "payload is ever lost. For a tree inside ONE iteration engine process returns the tree itself and creates no "
             "node (single_engine_tree_is_only_annotated, process_then_execute_yields_direct_rows - total: processing cannot "
@@ -121,8 +123,11 @@ CHECKS = {
             "sharing any materialization nodes: attach succeeds exactly on a marker without payload (TypeError otherwise); "
             "a payload once present is the same object at every later point; payloads appear only on materializations of "
             "executed trees; each materialization's upstream tree is evaluated at most once (ghost log Nodup); a cached "
-            "materialization is handed back with no evaluation. Proof (partial): Processor.process histories and the SQL "
-            "engine's payloads are validated by correspondence + oracle, not proved. " + CORR, "", "DESIGN.md 5/C10"),
+            "materialization is handed back with no evaluation; ONE Processor.process call on the class of multi-engine trees "
+            "of C07 is write-once too (processing_is_write_once: every payload that was in the store is still there, the "
+            "same object; payloads are added only to Materializations of the input tree and to nodes the Processor creates; "
+            "nothing is attached on the database side). Proof (partial): histories of several process calls, process on "
+            "other trees and the SQL engine's payloads are validated by correspondence + oracle, not proved. " + CORR, "", "DESIGN.md 5/C10"),
     "C11": (PR, "Lean 4 theorems: the tree-building induction of C17 (slice = window of the target's order, sort on top, refusal of buried unsliced sorts) composed with compile_sound (ORDER BY and OFFSET/LIMIT of the emitted query level) + correspondence incl. execution on SQLite in both scan orders",
             "Machine-checked (Props/C11.lean, rows are ordered lists): a slice applied inside the SQL engine to any raw SQL tree "
             "yields exactly rows [start, stop) of the target's rows in the target's order, a sort yields them stably sorted "
@@ -153,7 +158,9 @@ CHECKS = {
             "placeholder node, every expression supported); every tree built by a history inside ONE SQL engine - unary "
             "operations, chains, joins with automatic common columns, materializations - is WF and lives in that engine "
             "(sql_history_trees_wellformed); automatic join resolution yields key columns of both operands; transferred_to never "
-            "creates a self-transfer; documented no-op calls return the relation itself; a unary operation applied with ANY "
+            "creates a self-transfer, and Engine.transfer given an explicit payload returns a Transfer from ANOTHER engine or "
+            "raises EngineError when the (simplified) target already lives in the destination "
+            "(transfer_with_payload_never_to_same_engine, transfer_with_payload_to_own_engine_raises); documented no-op calls return the relation itself; a unary operation applied with ANY "
             "preferred_engine / backtrack / transfer / require combination to an iteration-engine tree returns a well-formed "
             "relation in the target's engine or (transfer only) the preferred one (apply_with_options_wellformed); inside the "
             "SQL engine a unary operation applied to any raw SQL tree, and conform of one, return a well-formed relation in the "
